@@ -8,6 +8,8 @@ const CLEAN: &str = "!case clean\n!cfg s16\n!mode MODE\nnew v\npush v 10\npush v
 with_alignment a 2 64\npush a 1\nretain v mod2=0\ndrain v U U d\nnext d\n!end\n";
 const FAIL: &str = "!case fail\n!cfg w4\n!mode MODE\n!allocfail_at 1\nnew v\npush v 1\n!end\n";
 const INJ: &str = "!case inj\n!cfg w4\n!mode MODE\n!panic_at 1\nmacro_list v 3 1 2\ntruncate v 0\n!end\n";
+const SERDE: &str = "!case serde\n!cfg w4\n!mode MODE\nmacro_list v 5 6\nserialize v\n\
+deserialize w N sq[1,2,3]\ndeserialize_in_place v N sq[9,E]\n!end\n";
 const WRONG: &str = "!case wrong\n!cfg w4\n!mode bogus\nnew v\n!end\n";
 
 fn run_text(text: &str, timeout: u64) -> String {
@@ -69,6 +71,36 @@ pub fn run() -> i32 {
   postprocess(b"> a\nD 5\nA 1 1\nD 3\n= ok\n> b\n~inj\nD 9\nD 2\n= panic\n", &mut out);
   let s = String::from_utf8_lossy(&out).into_owned();
   check("postprocess", s == "> a\nD 3\nA 1 1\nD 5\n= ok\n> b\nD 9\nD 2\n= panic\n", &s);
+
+  // serde shadow semantics (real Vec in-place visitor)
+  {
+    use crate::interp::Out;
+    use crate::shadow::{exec, Sh};
+    let names = vec!["v".to_string(), "w".to_string()];
+    let mut sh = vec![Sh::Vec(vec![10, 20, 30]), Sh::Pending];
+    let get = |sh: &Vec<Sh>, i: usize| match &sh[i] {
+      Sh::Vec(v) => v.clone(),
+      _ => vec![-1],
+    };
+    let e = Out::Text("err".to_string());
+    let r = exec(&mut sh, &names, &["deserialize_in_place", "v", "1", "sq[1,E,3]"], None);
+    check("shadow in-place err", r == e && get(&sh, 0) == [1, 20, 30], "");
+    let r = exec(&mut sh, &names, &["deserialize_in_place", "v", "N", "sq[7,8]"], None);
+    check("shadow in-place truncate", r == Out::Unit && get(&sh, 0) == [7, 8], "");
+    let r = exec(&mut sh, &names, &["deserialize_in_place", "v", "9", "sq[1,2,3,E]"], None);
+    check("shadow in-place tail err", r == e && get(&sh, 0) == [1, 2, 3], "");
+    let r = exec(&mut sh, &names, &["serialize", "v"], None);
+    check("shadow serialize", r == Out::List(vec![1, 2, 3]), "");
+    let r = exec(&mut sh, &names, &["deserialize", "w", "N", "sq[4,E]"], None);
+    check("shadow deserialize err", r == e && matches!(sh[1], Sh::Pending), "");
+    let r = exec(&mut sh, &names, &["deserialize", "w", "0", "sq[4,5]"], None);
+    check("shadow deserialize ok", r == Out::Unit && get(&sh, 1) == [4, 5], "");
+  }
+  let t = run_text(SERDE, 5000);
+  check("serde: no oracle lines", !t.lines().any(|l| l.starts_with("O ") || l.starts_with("X ")), &t);
+  for want in ["= [1:5 2:6]", "S w 3 4 [3:1 4:2 5:3]", "= err", "S v 2 4 [6:9 2:6]", "D 1"] {
+    check(&format!("serde: has `{}`", want), t.lines().any(|l| l == want), &t);
+  }
 
   let (tr, _, oc) = fork_run(5000, raw_alloc_checks);
   let t = String::from_utf8_lossy(&tr).into_owned();
